@@ -399,6 +399,7 @@ type c09Rec struct {
 	curRaw  string
 	curAt   int64
 	open    bool // a reconnect group is open (attempts made, not yet closed by the next body)
+	gone    bool // the server has answered 404 once
 }
 
 func (r *c09Rec) us() int64 { return int64(time.Since(r.t0) / time.Microsecond) }
@@ -553,21 +554,23 @@ func (r *c09Rec) RoundTrip(req *http.Request) (*http.Response, error) {
 		if gi < len(r.cs.Rc) && ai < len(r.cs.Rc[gi]) {
 			ans = r.cs.Rc[gi][ai]
 		}
-		if cur == c09Bogus && ans != "terr" {
+		if r.gone {
+			ans = "404"
+		} else if cur == c09Bogus && ans != "terr" {
 			ans = "400"
 		}
 		r.curOuts = append(r.curOuts, ans)
+		// All attempts made before the next body is served belong to the reconnect that follows the
+		// last body, whatever they were answered.
 		switch ans {
 		case "terr":
 			return nil, errors.New("c09: connection refused")
 		case "5xx":
-			r.closeGroup()
 			return c09JSONResp(req, http.StatusServiceUnavailable, "", nil), nil
 		case "404":
-			r.closeGroup()
+			r.gone = true // a terminated session stays terminated
 			return c09JSONResp(req, http.StatusNotFound, "", nil), nil
 		case "400":
-			r.closeGroup()
 			return c09JSONResp(req, http.StatusBadRequest, "", nil), nil
 		}
 		r.closeGroup()
